@@ -48,6 +48,9 @@ Broken(toks, d, boolmark, aliases) ==
                             ((c.ivl = "out") # (x + 2 <= Len(toks) /\ toks[x + 2].t = "word" /\ toks[x + 2].v \in Units))}}
   \cup {"groupby-alias" : i \in {x \in DOMAIN toks : ~c.gba /\ toks[x].t = "word" /\ toks[x].v = "GROUP" /\ x + 2 <= Len(toks)
                             /\ toks[x + 1].v = "BY" /\ toks[x + 2].t = "id" /\ toks[x + 2].v \in aliases}}
+  \cup {"set-operand-brackets" : i \in {x \in DOMAIN toks : toks[x].t = "word" /\ toks[x].v \in {"UNION", "INTERSECT", "EXCEPT", "MINUS"} /\
+                            LET y == IF x + 1 <= Len(toks) /\ toks[x + 1].t = "word" /\ toks[x + 1].v = "ALL" THEN x + 2 ELSE x + 1 IN
+                            y <= Len(toks) /\ ((toks[y].t = "punct" /\ toks[y].v = "(") # c.wrap)}}
   \cup {"pagination" : i \in {x \in DOMAIN toks : toks[x].t = "word" /\
                             ((c.pag = "fetch" /\ toks[x].v = "LIMIT") \/ (c.pag = "limit" /\ toks[x].v = "FETCH"))}}
 
